@@ -20,8 +20,10 @@ static int g_nkeys, g_rounds;
 static char *g_ref_tok[MAXK][MAXT];   /* per key and per thread id: every thread signs its own content */
 static int g_nthreads;
 static int g_deterministic[MAXK];
+static int g_seq_fails[MAXK];        /* the provider refuses this key/alg sequentially: it must do so concurrently too */
 static long g_mismatch;
 static pthread_barrier_t g_bar, g_bar_end;
+static const char *g_provider = "";
 static int g_cold = 4;
 static jwk_set_t *g_ref_set;
 
@@ -86,6 +88,11 @@ static void *worker(void *arg)
 			int k = (i + tid) % g_nkeys;
 			char err[200] = "";
 			char *tok = gen_one(k, tid, err, sizeof err);
+			if (g_seq_fails[k]) {
+				if (tok) { bad++; if (bad <= 2) fprintf(stderr, "MISMATCH thread=%d round=%d key=%d: generate succeeded although the sequential run refuses this key/alg under this provider\n", tid, r, k); free(tok); }
+				if (strcmp(jwt_get_crypto_ops(), g_provider)) { bad++; if (bad <= 2) fprintf(stderr, "MISMATCH thread=%d: the process-wide provider changed to %s during the run\n", tid, jwt_get_crypto_ops()); }
+				continue;
+			}
 #define BAD(what) do { bad++; if (bad <= 2) fprintf(stderr, "MISMATCH thread=%d round=%d key=%d: %s %s\n", tid, r, k, what, err); } while (0)
 			if (!tok) { BAD("generate failed"); continue; }
 			if (g_deterministic[k] && strcmp(tok, g_ref_tok[k][tid])) BAD("token differs from the sequential one");
@@ -110,6 +117,7 @@ int main(int argc, char **argv)
 	g_nthreads = nthreads;
 	g_rounds = atoi(argv[3]);
 	if (jwt_set_crypto_ops(argv[4])) { fprintf(stderr, "no such provider\n"); return 2; }
+	g_provider = argv[4];
 	if (argc > 6) g_cold = atoi(argv[6]);
 	g_set = jwks_create_fromfile(argv[1]);
 	if (!g_set || jwks_error(g_set) || jwks_error_any(g_set)) { fprintf(stderr, "cannot load keys\n"); return 2; }
@@ -120,6 +128,7 @@ int main(int argc, char **argv)
 		g_deterministic[k] = is_det(jwks_item_alg(jwks_item_get(g_set, 2 * k)));
 		for (int t = 0; t < nthreads; t++) {
 			g_ref_tok[k][t] = gen_one(k, t, err, sizeof err);
+			if (!g_ref_tok[k][t] && t == 0) { g_seq_fails[k] = 1; break; }          /* e.g. ES256K under GnuTLS */
 			if (!g_ref_tok[k][t] || verify_one(k, g_ref_tok[k][t])) { fprintf(stderr, "sequential reference failed for key %d: %s\n", k, err); return 2; }
 		}
 	}
